@@ -45,11 +45,15 @@ TResult ==
        \* never longer, and shorter by little (granularity + the time between computing the header and sending it)
        [] sc.op = "deadline_wait" ->
             /\ Cur.present
+            \* (the header is computed somewhere between before_ms -- the operation that sends the request starts -- and
+            \*  waited_ms -- the transport has the request: never longer than what was left at the first instant, and not
+            \*  much shorter than what was left at the second)
             /\ LET left == sc.secs * 1000 - Cur.waited_ms
+                   leftmax == sc.secs * 1000 - Cur.before_ms
                    sent == IF sc.proto = "connect" THEN Num(Cur.chars, Len(Cur.chars)) ELSE GrpcMillis(Cur.chars).ms
                IN /\ (sc.proto = "connect" => ConnectGrammatical(Cur.chars))
                   /\ (sc.proto # "connect" => GrpcGrammatical(Cur.chars) /\ GrpcMillis(Cur.chars).k = "ms")
-                  /\ sent <= left + 2 /\ sent >= left - 250
+                  /\ sent <= leftmax /\ sent >= left - 250
        \* the second exchange on a reused Request is consistent on its own: compressed iff at least the threshold, the
        \* header names an algorithm if the body is compressed (for unary Connect: exactly then), the message arrives
        [] sc.op = "enc_reuse" -> /\ Cur.ok1 /\ Cur.ok /\ Cur.same
@@ -63,6 +67,8 @@ TResult ==
             /\ ~Cur.stuck /\ ~Cur.ok
             /\ Cur.code = (IF sc.text = "servercancel" THEN 1 ELSE 4)
             /\ (sc.text # "early" => Cur.hctx /\ Cur.got = sc.n)
+            \* (the unary handler function is not even called: the library answers for it)
+            /\ (sc.text = "early" /\ sc.used = "unary" => ~Cur.hctx)
        \* C14 / C15: Do returns a response after the call's context was cancelled: its body is closed, nothing hangs,
        \* and the call does not succeed with anything but canceled
        [] sc.op = "late_response" -> ~Cur.stuck /\ Cur.closed /\ ~Cur.ok /\ Cur.code = 1
